@@ -192,6 +192,12 @@ def gen_ir(g, rng, cov, n_modules=None, entry_later=False, with_aux=True):
                                 attrs.discard(a0)
                                 attrs.add(a0.value)
                                 cov.hit("attribute-known-by-number")
+                        if attrs and rng.random() < 0.15:
+                            # ... or in BOTH forms at once: one attribute, whichever way the set is walked
+                            a0 = next((a for a in attrs if not isinstance(a, int)), None)
+                            if a0 is not None:
+                                attrs.add(a0.value)
+                                cov.hit("attribute-in-both-forms")
                         if attrs:
                             cov.hit("attribute-known")
                             cov._last_attrs = set(attrs)
@@ -334,9 +340,22 @@ def gen_ir(g, rng, cov, n_modules=None, entry_later=False, with_aux=True):
         env = AuxEnv(g, ir, rng)
         for cont in [ir] + mods:
             for _ in range(rng.choice([0, 0, 1, 2])):
-                t = rand_ordered_type(rng, 3)
+                single = rng.random() < 0.35
                 try:
-                    v = auxval.rand_value(rng, t, env, size=3)
+                    if single:
+                        # sets and mappings too ("any nesting": containers, Offsets, variants as elements and keys), each holding at
+                        # most one element, so that the bytes of the table do not depend on an iteration order
+                        t = no_float32(auxval.rand_type(rng, 3, rich=True))
+                        if rng.random() < 0.4:
+                            t = (rng.choice(["set", "mapping"]), [rng.choice([("Offset", []), ("tuple", [("Offset", []), ("string", [])]), ("sequence", [("UUID", [])])])]
+                                 + ([("uint8_t", [])] if False else []))
+                            if t[0] == "mapping":
+                                t = ("mapping", [t[1][0], ("uint8_t", [])])
+                        v = auxval.rand_value(rng, t, env, size=3, single=True)
+                        cov.hit("aux-single-element-sets-and-mappings")
+                    else:
+                        t = rand_ordered_type(rng, 3)
+                        v = auxval.rand_value(rng, t, env, size=3)
                     auxval.oracle_encode(t, v, env)
                 except Exception:  # noqa: BLE001
                     continue
@@ -374,6 +393,11 @@ def rand_ordered_type(rng, depth):
             return ("double", [])          # float32 rounding is C07's business; whole files carry doubles
         return (nm, [strip(s) for s in subs])
     return strip(t)
+
+
+def no_float32(t):
+    nm, subs = t
+    return ("double", []) if nm == "float" else (nm, [no_float32(x) for x in subs])
 
 
 class AuxEnv:
